@@ -311,6 +311,9 @@ def make_quadratic(poly: Union[Polynomial, BinaryPolynomial], strength: float,
     variables = set().union(*poly)
     reduced_terms, constraints = reduce_binary_polynomial(poly)
 
+    # the new auxiliary variables should not clash with the product variables
+    variables.update(p for _, p in constraints)
+
     for (u, v), p in constraints:
 
         # add a constraint enforcing the relationship between p == u*v
